@@ -887,13 +887,660 @@ Proof.
   destruct (snd a =? snd b) eqn:E2; b2p; [contradiction|]. reflexivity.
 Qed.
 
-(** ** The code as found is refuted by two independent witnesses *)
+(** ** insertion of a vertex lying on an edge (a repeated vertex is the special case m = a) *)
+
+(** the two identities behind it: with m on the line a b,
+    cross a m q and cross m b q are the fractions (m-a)/(b-a) and (b-m)/(b-a) of cross a b q *)
+Lemma cross_split_1 : forall a b m q,
+  cross a m q * (py b - py a) = cross a b q * (py m - py a) - cross a b m * (py q - py a).
+Proof. intros. unfold cross. ring. Qed.
+Lemma cross_split_2 : forall a b m q,
+  cross m b q * (py b - py a) = cross a b q * (py b - py m) + cross a b m * (py q - py b).
+Proof. intros. unfold cross. ring. Qed.
+Lemma cross_split_1x : forall a b m q,
+  cross a m q * (px b - px a) = cross a b q * (px m - px a) - cross a b m * (px q - px a).
+Proof. intros. unfold cross. ring. Qed.
+Lemma cross_split_2x : forall a b m q,
+  cross m b q * (px b - px a) = cross a b q * (px b - px m) + cross a b m * (px q - px b).
+Proof. intros. unfold cross. ring. Qed.
+
+Definition ub (c : bool) : Z := if c then 1 else 0.
+
+Lemma sign_transfer_pos : forall x y p r, x * p = y * r -> 0 < p -> 0 < r -> (0 <? x) = (0 <? y).
+Proof.
+  intros x y p r H Hp Hr.
+  destruct (0 <? x) eqn:E, (0 <? y) eqn:E'; b2p; try reflexivity; nia.
+Qed.
+Lemma sign_transfer_neg : forall x y p r, x * p = y * r -> 0 < p -> 0 < r -> (x <? 0) = (y <? 0).
+Proof.
+  intros x y p r H Hp Hr.
+  destruct (x <? 0) eqn:E, (y <? 0) eqn:E'; b2p; try reflexivity; nia.
+Qed.
+
+Lemma up_right_split : forall a b m q, on_seg a b m ->
+  ub (up_right a b q) = ub (up_right a m q) + ub (up_right m b q).
+Proof.
+  intros a b m q [Hc [_ Hy]].
+  pose proof (cross_split_1 a b m q) as I1. pose proof (cross_split_2 a b m q) as I2.
+  rewrite Hc in I1, I2. unfold up_right.
+  destruct ((py a <=? py q) && (py q <? py m)) eqn:R1.
+  - (* ay <= qy < my <= by *)
+    b2p. replace ((py m <=? py q) && (py q <? py b)) with false.
+    2:{ symmetry. apply andb_false_iff. left. apply Z.leb_gt. lia. }
+    replace ((py a <=? py q) && (py q <? py b)) with true.
+    2:{ symmetry. apply andb_true_iff. split; [apply Z.leb_le|apply Z.ltb_lt]; lia. }
+    cbn [andb]. rewrite (sign_transfer_pos (cross a m q) (cross a b q) (py b - py a) (py m - py a)) by lia.
+    destruct (0 <? cross a b q); reflexivity.
+  - cbn [andb ub]. destruct ((py m <=? py q) && (py q <? py b)) eqn:R2.
+    + (* ay <= my <= qy < by *)
+      b2p. replace ((py a <=? py q) && (py q <? py b)) with true.
+      2:{ symmetry. apply andb_true_iff. split; [apply Z.leb_le|apply Z.ltb_lt]; lia. }
+      cbn [andb]. rewrite (sign_transfer_pos (cross m b q) (cross a b q) (py b - py a) (py b - py m)) by lia.
+      destruct (0 <? cross a b q); reflexivity.
+    + cbn [andb ub]. replace ((py a <=? py q) && (py q <? py b)) with false; [reflexivity|].
+      symmetry. apply andb_false_iff.
+      apply andb_false_iff in R1. apply andb_false_iff in R2.
+      destruct (py a <=? py q) eqn:E1; [|left; reflexivity]. right. apply Z.ltb_ge.
+      destruct R1 as [R1|R1]; [discriminate|]. destruct R2 as [R2|R2]; b2p; lia.
+Qed.
+
+Lemma down_right_split : forall a b m q, on_seg a b m ->
+  ub (down_right a b q) = ub (down_right a m q) + ub (down_right m b q).
+Proof.
+  intros a b m q Hm. rewrite <- !up_right_swap.
+  rewrite (up_right_split b a m q) by (apply on_seg_swap; exact Hm). lia.
+Qed.
+
+Lemma wnd_ub : forall q a b, wnd q a b = ub (up_right a b q) - ub (down_right a b q).
+Proof.
+  intros q a b. unfold wnd, wind_edge. destruct (up_right a b q) eqn:U.
+  - rewrite (up_down_excl _ _ _ U). reflexivity.
+  - destruct (down_right a b q); reflexivity.
+Qed.
+Lemma cr01_ub : forall q a b, cr01 q a b = ub (up_right a b q) + ub (down_right a b q).
+Proof.
+  intros q a b. unfold cr01, crosses_right. destruct (up_right a b q) eqn:U.
+  - rewrite (up_down_excl _ _ _ U). reflexivity.
+  - destruct (down_right a b q); reflexivity.
+Qed.
+
+Lemma wnd_split : forall q a b m, on_seg a b m -> wnd q a b = wnd q a m + wnd q m b.
+Proof.
+  intros q a b m Hm. rewrite !wnd_ub, (up_right_split a b m q Hm), (down_right_split a b m q Hm). ring.
+Qed.
+Lemma cr01_split : forall q a b m, on_seg a b m -> cr01 q a b = cr01 q a m + cr01 q m b.
+Proof.
+  intros q a b m Hm. rewrite !cr01_ub, (up_right_split a b m q Hm), (down_right_split a b m q Hm). ring.
+Qed.
+
+Lemma between_scaled : forall D K u v s t, D <> 0 -> D * s = u * K -> D * t = v * K ->
+  (0 <= u <= v \/ v <= u <= 0) -> Z.min 0 t <= s <= Z.max 0 t.
+Proof.
+  intros D K u v s t HD H1 H2 Hu.
+  assert (E : D * s * (D * t - D * s) = u * K * (v * K - u * K)) by (rewrite H1, H2; reflexivity).
+  assert (E' : (s * (t - s)) * (D * D) = (u * (v - u)) * (K * K)) by (rewrite <- (Z.mul_comm (D * D)); nia).
+  assert (0 <= u * (v - u)) by nia.
+  assert (0 <= K * K) by apply Z.square_nonneg.
+  assert (0 < D * D) by nia.
+  assert (0 <= s * (t - s)) by nia.
+  nia.
+Qed.
+
+Lemma on_seg_split : forall a b m q, on_seg a b m ->
+  (on_seg a b q <-> on_seg a m q \/ on_seg m b q).
+Proof.
+  intros [ax ay] [bx by_] [mx my] [qx qy] [Hc [Hx Hy]].
+  pose proof (cross_split_1 (ax,ay) (bx,by_) (mx,my) (qx,qy)) as I1.
+  pose proof (cross_split_2 (ax,ay) (bx,by_) (mx,my) (qx,qy)) as I2.
+  pose proof (cross_split_1x (ax,ay) (bx,by_) (mx,my) (qx,qy)) as J1.
+  pose proof (cross_split_2x (ax,ay) (bx,by_) (mx,my) (qx,qy)) as J2.
+  (* the same with the roles of m and b exchanged: a, m, b collinear seen from m *)
+  pose proof (cross_split_1 (ax,ay) (mx,my) (bx,by_) (qx,qy)) as K1.
+  pose proof (cross_split_1x (ax,ay) (mx,my) (bx,by_) (qx,qy)) as K1x.
+  pose proof (cross_split_1 (bx,by_) (mx,my) (ax,ay) (qx,qy)) as K2.
+  pose proof (cross_split_1x (bx,by_) (mx,my) (ax,ay) (qx,qy)) as K2x.
+  assert (Hamb : cross (ax,ay) (mx,my) (bx,by_) = 0).
+  { revert Hc. unfold cross; cbn [px py fst snd]. intros Hc. lia. }
+  assert (Hbma : cross (bx,by_) (mx,my) (ax,ay) = 0).
+  { revert Hc. unfold cross; cbn [px py fst snd]. intros Hc. lia. }
+  assert (Hswap : cross (bx,by_) (ax,ay) (qx,qy) = - cross (ax,ay) (bx,by_) (qx,qy)) by apply cross_swap.
+  assert (Hswap2 : cross (bx,by_) (mx,my) (qx,qy) = - cross (mx,my) (bx,by_) (qx,qy)) by apply cross_swap.
+  rewrite Hc in I1, I2, J1, J2. rewrite Hamb in K1, K1x. rewrite Hbma in K2, K2x.
+  unfold on_seg, in_seg_box. cbn [px py fst snd] in *.
+  set (cab := cross (ax,ay) (bx,by_) (qx,qy)) in *.
+  set (cam := cross (ax,ay) (mx,my) (qx,qy)) in *.
+  set (cmb := cross (mx,my) (bx,by_) (qx,qy)) in *.
+  split.
+  - intros [Hq [Hqx Hqy]].
+    assert (Ham : cam = 0).
+    { destruct (Z.eq_dec by_ ay) as [E|E]; [destruct (Z.eq_dec bx ax) as [E'|E']|].
+      - subst. assert (qx = ax) by lia. assert (qy = ay) by lia. subst. unfold cam, cross; cbn [px py fst snd]. ring.
+      - nia.
+      - nia. }
+    assert (Hmb : cmb = 0).
+    { destruct (Z.eq_dec by_ ay) as [E|E]; [destruct (Z.eq_dec bx ax) as [E'|E']|].
+      - subst. assert (qx = ax) by lia. assert (qy = ay) by lia. assert (mx = ax) by lia. assert (my = ay) by lia.
+        subst. unfold cmb, cross; cbn [px py fst snd]. ring.
+      - nia.
+      - nia. }
+    destruct (Z.eq_dec ax bx) as [E|E].
+    + (* vertical or degenerate: order by y *)
+      destruct (Z_le_gt_dec (Z.min ay my) qy) as [L1|L1]; destruct (Z_le_gt_dec qy (Z.max ay my)) as [L2|L2].
+      * left. split; [exact Ham|]. lia.
+      * right. split; [exact Hmb|]. lia.
+      * right. split; [exact Hmb|]. lia.
+      * lia.
+    + destruct (Z_le_gt_dec (Z.min ax mx) qx) as [L1|L1]; destruct (Z_le_gt_dec qx (Z.max ax mx)) as [L2|L2].
+      * left. split; [exact Ham|]. split; [lia|].
+        (* y follows from collinearity *)
+        assert (B : Z.min 0 (my - ay) <= qy - ay <= Z.max 0 (my - ay)).
+        { apply (between_scaled (bx - ax) (by_ - ay) (qx - ax) (mx - ax)); [lia| | |lia].
+          - revert Hq. unfold cab, cross; cbn [px py fst snd]. lia.
+          - revert Hc. unfold cross; cbn [px py fst snd]. lia. }
+        lia.
+      * right. split; [exact Hmb|]. split; [lia|].
+        assert (B : Z.min 0 (my - by_) <= qy - by_ <= Z.max 0 (my - by_)).
+        { apply (between_scaled (ax - bx) (ay - by_) (qx - bx) (mx - bx)); [lia| | |lia].
+          - revert Hq. unfold cab, cross; cbn [px py fst snd]. lia.
+          - revert Hc. unfold cross; cbn [px py fst snd]. lia. }
+        lia.
+      * right. split; [exact Hmb|]. split; [lia|].
+        assert (B : Z.min 0 (my - by_) <= qy - by_ <= Z.max 0 (my - by_)).
+        { apply (between_scaled (ax - bx) (ay - by_) (qx - bx) (mx - bx)); [lia| | |lia].
+          - revert Hq. unfold cab, cross; cbn [px py fst snd]. lia.
+          - revert Hc. unfold cross; cbn [px py fst snd]. lia. }
+        lia.
+      * lia.
+  - intros [[Hq [Hqx Hqy]]|[Hq [Hqx Hqy]]].
+    + split; [|lia].
+      destruct (Z.eq_dec my ay) as [E|E]; [destruct (Z.eq_dec mx ax) as [E'|E']|].
+      * subst. assert (qx = ax) by lia. assert (qy = ay) by lia. subst. unfold cab, cross; cbn [px py fst snd]. ring.
+      * nia.
+      * nia.
+    + split; [|lia].
+      destruct (Z.eq_dec my by_) as [E|E]; [destruct (Z.eq_dec mx bx) as [E'|E']|].
+      * subst. assert (qx = bx) by lia. assert (qy = by_) by lia. subst. unfold cab, cross; cbn [px py fst snd]. ring.
+      * nia.
+      * nia.
+Qed.
+
+Lemma edges_cons : forall a R, edges (a :: R) = (a, hd a R) :: chain (R ++ [a]).
+Proof. intros a [|b R]; reflexivity. Qed.
+
+Lemma edges_cons2 : forall a m R, edges (a :: m :: R) = (a, m) :: (m, hd a R) :: chain (R ++ [a]).
+Proof. intros a m [|b R]; reflexivity. Qed.
+
+Lemma on_boundary_insert_head : forall a m R q, on_seg a (hd a R) m ->
+  (on_boundary (a :: m :: R) q <-> on_boundary (a :: R) q).
+Proof.
+  intros a m R q Hm. unfold on_boundary. rewrite (edges_cons2 a m R), (edges_cons a R).
+  pose proof (on_seg_split a (hd a R) m q Hm) as Hs.
+  split.
+  - intros [e [[<-|[<-|Hin]] Ho]]; cbn [fst snd] in Ho.
+    + exists (a, hd a R). split; [left; reflexivity|]. apply Hs. left. exact Ho.
+    + exists (a, hd a R). split; [left; reflexivity|]. apply Hs. right. exact Ho.
+    + exists e. split; [right; exact Hin|exact Ho].
+  - intros [e [[<-|Hin] Ho]]; cbn [fst snd] in Ho.
+    + apply Hs in Ho. destruct Ho as [Ho|Ho].
+      * exists (a, m). split; [left; reflexivity|exact Ho].
+      * exists (m, hd a R). split; [right; left; reflexivity|exact Ho].
+    + exists e. split; [right; right; exact Hin|exact Ho].
+Qed.
+
+Lemma in_region_insert_head : forall a m R q, on_seg a (hd a R) m ->
+  (in_region (a :: m :: R) q <-> in_region (a :: R) q).
+Proof.
+  intros a m R q Hm. unfold in_region. rewrite (on_boundary_insert_head a m R q Hm).
+  rewrite !crossings_esum, (edges_cons2 a m R), (edges_cons a R), !esum_cons.
+  rewrite (cr01_split q a (hd a R) m Hm), Z.add_assoc. reflexivity.
+Qed.
+
+Lemma in_region_nz_insert_head : forall a m R q, on_seg a (hd a R) m ->
+  (in_region_nz (a :: m :: R) q <-> in_region_nz (a :: R) q).
+Proof.
+  intros a m R q Hm. unfold in_region_nz. rewrite (on_boundary_insert_head a m R q Hm).
+  rewrite !winding_esum, (edges_cons2 a m R), (edges_cons a R), !esum_cons.
+  rewrite (wnd_split q a (hd a R) m Hm), Z.add_assoc. reflexivity.
+Qed.
+
+(** insertion anywhere: m lies on the edge that leaves vertex a (towards the next vertex, cyclically) *)
+Theorem in_region_insert_collinear : forall l1 a l2 m q, on_seg a (hd a (l2 ++ l1)) m ->
+  (in_region (l1 ++ a :: m :: l2) q <-> in_region (l1 ++ a :: l2) q).
+Proof.
+  intros l1 a l2 m q Hm.
+  rewrite (in_region_rotate (a :: m :: l2) l1 q), (in_region_rotate (a :: l2) l1 q).
+  cbn [app]. apply in_region_insert_head. exact Hm.
+Qed.
+
+Theorem in_region_nz_insert_collinear : forall l1 a l2 m q, on_seg a (hd a (l2 ++ l1)) m ->
+  (in_region_nz (l1 ++ a :: m :: l2) q <-> in_region_nz (l1 ++ a :: l2) q).
+Proof.
+  intros l1 a l2 m q Hm.
+  rewrite (in_region_nz_rotate (a :: m :: l2) l1 q), (in_region_nz_rotate (a :: l2) l1 q).
+  cbn [app]. apply in_region_nz_insert_head. exact Hm.
+Qed.
+
+Lemma on_seg_start : forall a b, on_seg a b a.
+Proof. intros a b. unfold on_seg, in_seg_box, cross. split; [ring|lia]. Qed.
+
+Theorem in_region_insert_repeat : forall l1 a l2 q,
+  in_region (l1 ++ a :: a :: l2) q <-> in_region (l1 ++ a :: l2) q.
+Proof. intros. apply in_region_insert_collinear. apply on_seg_start. Qed.
+
+Theorem in_region_nz_insert_repeat : forall l1 a l2 q,
+  in_region_nz (l1 ++ a :: a :: l2) q <-> in_region_nz (l1 ++ a :: l2) q.
+Proof. intros. apply in_region_nz_insert_collinear. apply on_seg_start. Qed.
+
+Ltac decide_cmp :=
+  repeat match goal with
+  | |- context [?x <=? ?y] =>
+      first [ replace (x <=? y) with true by (symmetry; apply Z.leb_le; lia)
+            | replace (x <=? y) with false by (symmetry; apply Z.leb_gt; lia) ]
+  | |- context [?x <? ?y] =>
+      first [ replace (x <? y) with true by (symmetry; apply Z.ltb_lt; lia)
+            | replace (x <? y) with false by (symmetry; apply Z.ltb_ge; lia) ]
+  | |- context [?x =? ?y] =>
+      first [ replace (x =? y) with true by (symmetry; apply Z.eqb_eq; lia)
+            | replace (x =? y) with false by (symmetry; apply Z.eqb_neq; lia) ]
+  end.
+
+(** a point of the line a b whose y lies in the closed y-range of a non-horizontal edge is on the edge *)
+Lemma collinear_yrange_on_seg : forall a b q,
+  cross a b q = 0 -> py a <> py b -> Z.min (py a) (py b) <= py q <= Z.max (py a) (py b) -> on_seg a b q.
+Proof.
+  intros [ax ay] [bx by_] [qx qy]. unfold on_seg, in_seg_box, cross; cbn [px py fst snd].
+  intros Hc Hne Hy. split; [exact Hc|]. split; [|exact Hy].
+  assert (B : Z.min 0 (bx - ax) <= qx - ax <= Z.max 0 (bx - ax)).
+  { apply (between_scaled (by_ - ay) (bx - ax) (qy - ay) (by_ - ay)); lia. }
+  lia.
+Qed.
+
+(** ** mirror image in the y axis: the ray points the other way *)
+Definition up_left (a b q : pt) : bool := (py a <=? py q) && (py q <? py b) && (cross a b q <? 0).
+Definition down_left (a b q : pt) : bool := (py b <=? py q) && (py q <? py a) && (0 <? cross a b q).
+Definition wndL (q a b : pt) : Z := ub (up_left a b q) - ub (down_left a b q).
+Definition cr01L (q a b : pt) : Z := ub (up_left a b q) + ub (down_left a b q).
+
+Definition mirror_x (p : pt) : pt := (- px p, py p).
+
+Lemma cross_mirror_x : forall a b q, cross (mirror_x a) (mirror_x b) (mirror_x q) = - cross a b q.
+Proof. intros. unfold cross, mirror_x, px, py; cbn [fst snd]. ring. Qed.
+
+Lemma on_seg_mirror_x : forall a b q, on_seg (mirror_x a) (mirror_x b) (mirror_x q) <-> on_seg a b q.
+Proof.
+  intros a b q. unfold on_seg, in_seg_box. rewrite cross_mirror_x.
+  unfold mirror_x, px, py; cbn [fst snd]. lia.
+Qed.
+
+Lemma ltb_opp_l : forall z, (0 <? - z) = (z <? 0).
+Proof. intros. destruct (z <? 0) eqn:E, (0 <? - z) eqn:E'; b2p; try reflexivity; lia. Qed.
+Lemma ltb_opp_r : forall z, (- z <? 0) = (0 <? z).
+Proof. intros. destruct (0 <? z) eqn:E, (- z <? 0) eqn:E'; b2p; try reflexivity; lia. Qed.
+
+Lemma up_right_mirror_x : forall a b q, up_right (mirror_x a) (mirror_x b) (mirror_x q) = up_left a b q.
+Proof. intros. unfold up_right, up_left. rewrite cross_mirror_x, ltb_opp_l. reflexivity. Qed.
+Lemma down_right_mirror_x : forall a b q, down_right (mirror_x a) (mirror_x b) (mirror_x q) = down_left a b q.
+Proof. intros. unfold down_right, down_left. rewrite cross_mirror_x, ltb_opp_r. reflexivity. Qed.
+
+(** off the edge, an edge that crosses the level of q does so either left or right of q *)
+Lemma right_plus_left : forall a b q, ~ on_seg a b q ->
+  wnd q a b + wndL q a b = above q b - above q a /\
+  cr01 q a b + cr01L q a b = Z.abs (above q b - above q a).
+Proof.
+  intros a b q Hn. rewrite wnd_ub, cr01_ub. unfold wndL, cr01L, up_right, down_right, up_left, down_left, above.
+  assert (Hc : cross a b q = 0 -> py a <> py b -> Z.min (py a) (py b) <= py q <= Z.max (py a) (py b) -> False).
+  { intros H1 H2 H3. apply Hn. apply collinear_yrange_on_seg; assumption. }
+  set (c := cross a b q) in *.
+  destruct (Z_lt_ge_dec (py q) (py a)) as [Ha|Ha]; destruct (Z_lt_ge_dec (py q) (py b)) as [Hb|Hb].
+  - decide_cmp. cbn. split; reflexivity.
+  - assert (c <> 0) by (intros E; apply Hc; [exact E|lia|lia]).
+    destruct (Z_lt_ge_dec c 0); decide_cmp; cbn; split; reflexivity.
+  - assert (c <> 0) by (intros E; apply Hc; [exact E|lia|lia]).
+    destruct (Z_lt_ge_dec c 0); decide_cmp; cbn; split; reflexivity.
+  - decide_cmp. cbn. split; reflexivity.
+Qed.
+
+Lemma not_on_boundary_edges : forall P q, ~ on_boundary P q ->
+  forall e, In e (edges P) -> ~ on_seg (fst e) (snd e) q.
+Proof. intros P q H e He Ho. apply H. exists e. split; assumption. Qed.
+
+Lemma esum_add : forall f g es, esum (fun a b => f a b + g a b) es = esum f es + esum g es.
+Proof.
+  intros f g es. induction es as [|[a b] es IH]; [reflexivity|]. rewrite !esum_cons, IH. ring.
+Qed.
+
+Lemma on_boundary_dec : forall P q, on_boundary P q \/ ~ on_boundary P q.
+Proof.
+  intros P q. destruct (on_boundaryb P q) eqn:E.
+  - left. apply on_boundaryb_spec. exact E.
+  - right. intros H. apply on_boundaryb_spec in H. congruence.
+Qed.
+
+Lemma winding_left : forall P q, ~ on_boundary P q ->
+  esum (wndL q) (edges P) = - winding P q /\
+  Z.odd (esum (cr01L q) (edges P)) = Z.odd (crossings P q).
+Proof.
+  intros P q Hn. pose proof (not_on_boundary_edges P q Hn) as He.
+  split.
+  - assert (E : esum (fun a b => wnd q a b + wndL q a b) (edges P) = 0).
+    { rewrite (esum_ext _ (fun a b => (fun p => - above q p) a - (fun p => - above q p) b)).
+      - apply esum_closed.
+      - intros e Hin. destruct (right_plus_left _ _ q (He e Hin)) as [H _]. rewrite H. ring. }
+    rewrite esum_add in E. rewrite winding_esum. lia.
+  - assert (E : Z.odd (esum (fun a b => cr01 q a b + cr01L q a b) (edges P)) = false).
+    { rewrite (esum_ext _ (fun a b => Z.abs ((fun p => - above q p) a - (fun p => - above q p) b))).
+      - rewrite esum_odd_abs, esum_closed. reflexivity.
+      - intros e Hin. destruct (right_plus_left _ _ q (He e Hin)) as [_ H]. rewrite H. f_equal. ring. }
+    rewrite esum_add, Z.odd_add in E. rewrite crossings_esum.
+    destruct (Z.odd (esum (cr01 q) (edges P))), (Z.odd (esum (cr01L q) (edges P))); try reflexivity; discriminate.
+Qed.
+
+Lemma on_boundary_mirror_x : forall P q, on_boundary (map mirror_x P) (mirror_x q) <-> on_boundary P q.
+Proof.
+  intros P q. apply (on_boundary_edge_map _ _ q (mirror_x q) (fun e => (mirror_x (fst e), mirror_x (snd e)))).
+  - rewrite edges_map. apply Permutation_refl.
+  - intros a b. cbn [fst snd]. apply on_seg_mirror_x.
+Qed.
+
+Lemma sums_mirror_x : forall P q,
+  winding (map mirror_x P) (mirror_x q) = esum (wndL q) (edges P) /\
+  crossings (map mirror_x P) (mirror_x q) = esum (cr01L q) (edges P).
+Proof.
+  intros P q. rewrite winding_esum, crossings_esum, edges_map, !esum_map. split; apply esum_ext; intros [a b] _; cbn [fst snd].
+  - rewrite wnd_ub, up_right_mirror_x, down_right_mirror_x. reflexivity.
+  - rewrite cr01_ub, up_right_mirror_x, down_right_mirror_x. reflexivity.
+Qed.
+
+Theorem in_region_mirror_x : forall P q, in_region (map mirror_x P) (mirror_x q) <-> in_region P q.
+Proof.
+  intros P q. unfold in_region. rewrite on_boundary_mirror_x.
+  destruct (on_boundary_dec P q) as [H|H]; [tauto|].
+  destruct (sums_mirror_x P q) as [_ ->]. destruct (winding_left P q H) as [_ ->]. reflexivity.
+Qed.
+
+Theorem in_region_nz_mirror_x : forall P q, in_region_nz (map mirror_x P) (mirror_x q) <-> in_region_nz P q.
+Proof.
+  intros P q. unfold in_region_nz. rewrite on_boundary_mirror_x.
+  destruct (on_boundary_dec P q) as [H|H]; [tauto|].
+  destruct (sums_mirror_x P q) as [-> _]. destruct (winding_left P q H) as [-> _].
+  split; intros [H'|H']; auto; right; lia.
+Qed.
+
+(** ** mirror image in the x axis: the half-open rule turns upside down (upper end included) *)
+Definition upU (a b q : pt) : bool := (py a <? py q) && (py q <=? py b) && (0 <? cross a b q).
+Definition downU (a b q : pt) : bool := (py b <? py q) && (py q <=? py a) && (cross a b q <? 0).
+Definition wndU (q a b : pt) : Z := ub (upU a b q) - ub (downU a b q).
+Definition rlev (q p : pt) : Z := ub ((py p =? py q) && (px q <? px p)).
+
+Definition mirror_y (p : pt) : pt := (px p, - py p).
+
+Lemma cross_mirror_y : forall a b q, cross (mirror_y a) (mirror_y b) (mirror_y q) = - cross a b q.
+Proof. intros. unfold cross, mirror_y, px, py; cbn [fst snd]. ring. Qed.
+
+Lemma on_seg_mirror_y : forall a b q, on_seg (mirror_y a) (mirror_y b) (mirror_y q) <-> on_seg a b q.
+Proof.
+  intros a b q. unfold on_seg, in_seg_box. rewrite cross_mirror_y.
+  unfold mirror_y, px, py; cbn [fst snd]. lia.
+Qed.
+
+Lemma leb_opp : forall x y, (- x <=? - y) = (y <=? x).
+Proof. intros. destruct (y <=? x) eqn:E, (- x <=? - y) eqn:E'; b2p; try reflexivity; lia. Qed.
+Lemma ltb_opp : forall x y, (- x <? - y) = (y <? x).
+Proof. intros. destruct (y <? x) eqn:E, (- x <? - y) eqn:E'; b2p; try reflexivity; lia. Qed.
+
+Lemma up_right_mirror_y : forall a b q, up_right (mirror_y a) (mirror_y b) (mirror_y q) = downU a b q.
+Proof.
+  intros. unfold up_right, downU. rewrite cross_mirror_y, ltb_opp_l.
+  unfold mirror_y, px, py; cbn [fst snd]. rewrite leb_opp, ltb_opp.
+  rewrite (andb_comm (snd q <=? snd a)). reflexivity.
+Qed.
+Lemma down_right_mirror_y : forall a b q, down_right (mirror_y a) (mirror_y b) (mirror_y q) = upU a b q.
+Proof.
+  intros. unfold down_right, upU. rewrite cross_mirror_y, ltb_opp_r.
+  unfold mirror_y, px, py; cbn [fst snd]. rewrite leb_opp, ltb_opp.
+  rewrite (andb_comm (snd q <=? snd b)). reflexivity.
+Qed.
+
+Lemma upU_downU_excl : forall a b q, upU a b q = true -> downU a b q = false.
+Proof.
+  intros a b q H. unfold upU, downU in *. b2p.
+  destruct (py b <? py q) eqn:E; [b2p; lia|reflexivity].
+Qed.
+
+Lemma U_minus_L : forall a b q, ~ on_seg a b q ->
+  wndU q a b - wnd q a b = rlev q b - rlev q a.
+Proof.
+  intros [ax ay] [bx by_] [qx qy] Hn. rewrite wnd_ub.
+  unfold wndU, rlev, upU, downU, up_right, down_right.
+  unfold on_seg, in_seg_box in Hn.
+  assert (F1 : ay = qy -> cross (ax,ay) (bx,by_) (qx,qy) = - ((qx - ax) * (by_ - ay))).
+  { intros ->. unfold cross; cbn [px py fst snd]. ring. }
+  assert (F2 : by_ = qy -> cross (ax,ay) (bx,by_) (qx,qy) = (qy - ay) * (bx - qx)).
+  { intros ->. unfold cross; cbn [px py fst snd]. ring. }
+  set (c := cross (ax,ay) (bx,by_) (qx,qy)) in *. cbn [px py fst snd] in *.
+  destruct (Z.lt_trichotomy ay qy) as [Ha|[Ha|Ha]]; destruct (Z.lt_trichotomy by_ qy) as [Hb|[Hb|Hb]].
+  - decide_cmp. cbn. reflexivity.
+  - specialize (F2 Hb).
+    assert (E : (0 <? c) = (qx <? bx)) by (destruct (0 <? c) eqn:E1, (qx <? bx) eqn:E2; b2p; try reflexivity; nia).
+    rewrite E. decide_cmp. cbn. destruct (qx <? bx); reflexivity.
+  - decide_cmp. cbn. destruct (0 <? c); reflexivity.
+  - specialize (F1 Ha).
+    assert (E : (c <? 0) = (qx <? ax)) by (destruct (c <? 0) eqn:E1, (qx <? ax) eqn:E2; b2p; try reflexivity; nia).
+    rewrite E. decide_cmp. cbn. destruct (qx <? ax); reflexivity.
+  - specialize (F1 Ha).
+    assert (Hc0 : c = 0) by (rewrite F1; replace (by_ - ay) with 0 by lia; ring).
+    assert (E : (qx <? bx) = (qx <? ax)).
+    { destruct (qx <? bx) eqn:E1, (qx <? ax) eqn:E2; b2p; try reflexivity; exfalso; apply Hn; (split; [exact Hc0|lia]). }
+    rewrite E. decide_cmp. cbn. destruct (qx <? ax); reflexivity.
+  - specialize (F1 Ha).
+    assert (E : (0 <? c) = (qx <? ax)) by (destruct (0 <? c) eqn:E1, (qx <? ax) eqn:E2; b2p; try reflexivity; nia).
+    rewrite E. decide_cmp. cbn. destruct (qx <? ax); reflexivity.
+  - decide_cmp. cbn. destruct (c <? 0); reflexivity.
+  - specialize (F2 Hb).
+    assert (E : (c <? 0) = (qx <? bx)) by (destruct (c <? 0) eqn:E1, (qx <? bx) eqn:E2; b2p; try reflexivity; nia).
+    rewrite E. decide_cmp. cbn. destruct (qx <? bx); reflexivity.
+  - decide_cmp. cbn. reflexivity.
+Qed.
+
+Lemma winding_upper : forall P q, ~ on_boundary P q -> esum (wndU q) (edges P) = winding P q.
+Proof.
+  intros P q Hn. pose proof (not_on_boundary_edges P q Hn) as He.
+  assert (E : esum (fun a b => wndU q a b + - wnd q a b) (edges P) = 0).
+  { rewrite (esum_ext _ (fun a b => (fun p => - rlev q p) a - (fun p => - rlev q p) b)).
+    - apply esum_closed.
+    - intros e Hin. pose proof (U_minus_L _ _ q (He e Hin)) as H. lia. }
+  rewrite esum_add in E. rewrite winding_esum.
+  assert (E2 : esum (fun a b => - wnd q a b) (edges P) = - esum (wnd q) (edges P)).
+  { generalize (edges P). induction l as [|[a b] l IH]; [reflexivity|]. rewrite !esum_cons, IH. ring. }
+  lia.
+Qed.
+
+Lemma on_boundary_mirror_y : forall P q, on_boundary (map mirror_y P) (mirror_y q) <-> on_boundary P q.
+Proof.
+  intros P q. apply (on_boundary_edge_map _ _ q (mirror_y q) (fun e => (mirror_y (fst e), mirror_y (snd e)))).
+  - rewrite edges_map. apply Permutation_refl.
+  - intros a b. cbn [fst snd]. apply on_seg_mirror_y.
+Qed.
+
+Lemma sums_mirror_y : forall P q,
+  winding (map mirror_y P) (mirror_y q) = - esum (wndU q) (edges P) /\
+  Z.odd (crossings (map mirror_y P) (mirror_y q)) = Z.odd (esum (wndU q) (edges P)).
+Proof.
+  intros P q. rewrite winding_esum, crossings_esum, edges_map, !esum_map. split.
+  - generalize (edges P). induction l as [|[a b] l IH]; [reflexivity|].
+    rewrite !esum_cons, IH. cbn [fst snd]. rewrite wnd_ub, up_right_mirror_y, down_right_mirror_y.
+    unfold wndU. ring.
+  - rewrite <- (esum_odd_abs (wndU q)). f_equal. apply esum_ext. intros [a b] _. cbn [fst snd].
+    rewrite cr01_ub, up_right_mirror_y, down_right_mirror_y. unfold wndU.
+    destruct (upU a b q) eqn:U.
+    + rewrite (upU_downU_excl _ _ _ U). reflexivity.
+    + destruct (downU a b q); reflexivity.
+Qed.
+
+Theorem in_region_mirror_y : forall P q, in_region (map mirror_y P) (mirror_y q) <-> in_region P q.
+Proof.
+  intros P q. unfold in_region. rewrite on_boundary_mirror_y.
+  destruct (on_boundary_dec P q) as [H|H]; [tauto|].
+  destruct (sums_mirror_y P q) as [_ ->]. rewrite (winding_upper P q H), crossings_winding_parity. reflexivity.
+Qed.
+
+Theorem in_region_nz_mirror_y : forall P q, in_region_nz (map mirror_y P) (mirror_y q) <-> in_region_nz P q.
+Proof.
+  intros P q. unfold in_region_nz. rewrite on_boundary_mirror_y.
+  destruct (on_boundary_dec P q) as [H|H]; [tauto|].
+  destruct (sums_mirror_y P q) as [-> _]. rewrite (winding_upper P q H).
+  split; intros [H'|H']; auto; right; lia.
+Qed.
+
+(** ** axis-parallel edges *)
+Lemma up_right_vertical : forall x ya yb q,
+  up_right (x, ya) (x, yb) q = (ya <=? py q) && (py q <? yb) && (px q <? x).
+Proof.
+  intros x ya yb [qx qy]. unfold up_right, cross; cbn [px py fst snd].
+  destruct ((ya <=? qy) && (qy <? yb)) eqn:R; [|reflexivity]. cbn [andb]. b2p.
+  destruct (0 <? (x - x) * (qy - ya) - (qx - x) * (yb - ya)) eqn:E1, (qx <? x) eqn:E2; b2p; try reflexivity; nia.
+Qed.
+
+Lemma down_right_vertical : forall x ya yb q,
+  down_right (x, ya) (x, yb) q = (yb <=? py q) && (py q <? ya) && (px q <? x).
+Proof.
+  intros x ya yb [qx qy]. unfold down_right, cross; cbn [px py fst snd].
+  destruct ((yb <=? qy) && (qy <? ya)) eqn:R; [|reflexivity]. cbn [andb]. b2p.
+  destruct ((x - x) * (qy - ya) - (qx - x) * (yb - ya) <? 0) eqn:E1, (qx <? x) eqn:E2; b2p; try reflexivity; nia.
+Qed.
+
+Lemma up_right_horizontal : forall xa xb y q, up_right (xa, y) (xb, y) q = false.
+Proof.
+  intros xa xb y q. unfold up_right; cbn [px py fst snd].
+  destruct (y <=? py q) eqn:E1, (py q <? y) eqn:E2; b2p; try reflexivity; lia.
+Qed.
+
+Lemma down_right_horizontal : forall xa xb y q, down_right (xa, y) (xb, y) q = false.
+Proof.
+  intros xa xb y q. unfold down_right; cbn [px py fst snd].
+  destruct (y <=? py q) eqn:E1, (py q <? y) eqn:E2; b2p; try reflexivity; lia.
+Qed.
+
+Lemma on_seg_vertical : forall x ya yb q,
+  on_seg (x, ya) (x, yb) q <-> px q = x /\ Z.min ya yb <= py q <= Z.max ya yb.
+Proof.
+  intros x ya yb [qx qy]. unfold on_seg, in_seg_box, cross; cbn [px py fst snd]. split.
+  - intros [_ [Hx Hy]]. split; lia.
+  - intros [-> Hy]. split; [ring|lia].
+Qed.
+
+Lemma on_seg_horizontal : forall xa xb y q,
+  on_seg (xa, y) (xb, y) q <-> py q = y /\ Z.min xa xb <= px q <= Z.max xa xb.
+Proof.
+  intros xa xb y [qx qy]. unfold on_seg, in_seg_box, cross; cbn [px py fst snd]. split.
+  - intros [_ [Hx Hy]]. split; lia.
+  - intros [-> Hx]. split; [ring|lia].
+Qed.
+
+(** ** a rectangle given as a 4-vertex polygon is the closed box *)
+Lemma rect_poly_facts : forall p0 p1 q,
+  (on_boundary (rect_to_poly p0 p1) q \/ winding (rect_to_poly p0 p1) q <> 0 <-> in_box p0 p1 q) /\
+  -1 <= winding (rect_to_poly p0 p1) q <= 1.
+Proof.
+  intros [x0 y0] [x1 y1] [qx qy].
+  assert (Hb : on_boundary (rect_to_poly (x0,y0) (x1,y1)) (qx,qy) <->
+    (qy = y0 /\ Z.min x0 x1 <= qx <= Z.max x0 x1) \/ (qx = x1 /\ Z.min y0 y1 <= qy <= Z.max y0 y1) \/
+    (qy = y1 /\ Z.min x1 x0 <= qx <= Z.max x1 x0) \/ (qx = x0 /\ Z.min y1 y0 <= qy <= Z.max y1 y0)).
+  { unfold on_boundary, rect_to_poly, edges, X, Y; cbn [app chain fst snd].
+    pose proof (on_seg_horizontal x0 x1 y0 (qx,qy)) as H1. pose proof (on_seg_vertical x1 y0 y1 (qx,qy)) as H2.
+    pose proof (on_seg_horizontal x1 x0 y1 (qx,qy)) as H3. pose proof (on_seg_vertical x0 y1 y0 (qx,qy)) as H4.
+    cbn [px py fst snd] in *. split.
+    - intros [e [[<-|[<-|[<-|[<-|[]]]]] Ho]]; cbn [fst snd] in Ho; tauto.
+    - intros [H|[H|[H|H]]].
+      + exists ((x0,y0),(x1,y0)). split; [left; reflexivity|apply H1; exact H].
+      + exists ((x1,y0),(x1,y1)). split; [right; left; reflexivity|apply H2; exact H].
+      + exists ((x1,y1),(x0,y1)). split; [right; right; left; reflexivity|apply H3; exact H].
+      + exists ((x0,y1),(x0,y0)). split; [right; right; right; left; reflexivity|apply H4; exact H]. }
+  rewrite Hb. clear Hb.
+  assert (Hw : winding (rect_to_poly (x0,y0) (x1,y1)) (qx,qy) =
+    (ub ((y0 <=? qy) && (qy <? y1) && (qx <? x1)) - ub ((y1 <=? qy) && (qy <? y0) && (qx <? x1))) +
+    (ub ((y1 <=? qy) && (qy <? y0) && (qx <? x0)) - ub ((y0 <=? qy) && (qy <? y1) && (qx <? x0)))).
+  { rewrite winding_esum. unfold rect_to_poly, edges, X, Y; cbn [app chain fst snd].
+    rewrite !esum_cons. cbn [esum fold_right]. rewrite !wnd_ub.
+    rewrite !up_right_horizontal, !down_right_horizontal, !up_right_vertical, !down_right_vertical.
+    cbn [px py fst snd ub]. ring. }
+  rewrite Hw. clear Hw. unfold in_box; cbn [px py fst snd].
+  destruct (y0 <=? qy) eqn:E1, (qy <? y1) eqn:E2, (y1 <=? qy) eqn:E3, (qy <? y0) eqn:E4,
+           (qx <? x1) eqn:E5, (qx <? x0) eqn:E6; cbn [andb ub]; b2p; lia.
+Qed.
+
+Theorem rect_poly_in_region_nz : forall p0 p1 q, in_region_nz (rect_to_poly p0 p1) q <-> in_box p0 p1 q.
+Proof. intros. unfold in_region_nz. apply rect_poly_facts. Qed.
+
+Theorem rect_poly_in_region : forall p0 p1 q, in_region (rect_to_poly p0 p1) q <-> in_box p0 p1 q.
+Proof.
+  intros. rewrite in_region_nz_iff by apply rect_poly_facts. apply rect_poly_in_region_nz.
+Qed.
+
+(** all eight presentations: any starting corner, either orientation *)
+Theorem rect_poly_all_variants : forall p0 p1 (l1 l2 : list pt) q,
+  l1 ++ l2 = rect_to_poly p0 p1 \/ l1 ++ l2 = rev (rect_to_poly p0 p1) ->
+  (in_region (l2 ++ l1) q <-> in_box p0 p1 q) /\ (in_region_nz (l2 ++ l1) q <-> in_box p0 p1 q).
+Proof.
+  intros p0 p1 l1 l2 q H. rewrite (in_region_rotate l1 l2 q), (in_region_nz_rotate l1 l2 q).
+  destruct H as [H | H]; rewrite H.
+  - split; [apply rect_poly_in_region|apply rect_poly_in_region_nz].
+  - rewrite in_region_rev, in_region_nz_rev. split; [apply rect_poly_in_region|apply rect_poly_in_region_nz].
+Qed.
+
+(** Polygon::contains on Rect::to_poly agrees with Rect::contains *)
+Theorem poly_rect_agree : forall p0 p1 q, pt_ok p0 -> pt_ok p1 -> pt_ok q ->
+  poly_contains (rect_to_poly p0 p1) q = Ret (rect_contains p0 p1 q).
+Proof.
+  intros p0 p1 q H0 H1 Hq. rewrite poly_contains_eq_nzb; [|unfold rect_to_poly|exact Hq].
+  - f_equal. destruct (in_region_nzb (rect_to_poly p0 p1) q) eqn:E1, (rect_contains p0 p1 q) eqn:E2; try reflexivity.
+    + apply in_region_nzb_spec, rect_poly_in_region_nz, rect_contains_spec in E1. congruence.
+    + apply rect_contains_spec, rect_poly_in_region_nz, in_region_nzb_spec in E2. congruence.
+  - destruct H0, H1. repeat constructor; assumption.
+Qed.
+
+(** ** The code as found is refuted by two independent witnesses (both polygons are simple) *)
+Definition wit_vertex : list pt := [(0,0);(5,0);(5,4);(0,4);(1,2)].
+Definition wit_division : list pt := [(0,0);(1,3);(1,0)].
+
 Lemma orig_refuted_vertex :
-  poly_contains_orig [(0,0);(5,0);(5,4);(0,4);(1,2)] (0,2) = Ret true /\
-  in_regionb [(0,0);(5,0);(5,4);(0,4);(1,2)] (0,2) = false.
-Proof. vm_compute. split; reflexivity. Qed.
+  simpleb wit_vertex = true /\ poly_contains_orig wit_vertex (0,2) = Ret true /\
+  ~ in_region wit_vertex (0,2) /\ ~ in_region_nz wit_vertex (0,2) /\ poly_contains wit_vertex (0,2) = Ret false.
+Proof.
+  split; [vm_compute; reflexivity|]. split; [vm_compute; reflexivity|]. split; [|split].
+  - intros H. apply in_regionb_spec in H. vm_compute in H. discriminate.
+  - intros H. apply in_region_nzb_spec in H. vm_compute in H. discriminate.
+  - vm_compute. reflexivity.
+Qed.
 
 Lemma orig_refuted_division :
-  poly_contains_orig [(0,0);(1,3);(1,0)] (0,1) = Ret true /\
-  in_regionb [(0,0);(1,3);(1,0)] (0,1) = false.
-Proof. vm_compute. split; reflexivity. Qed.
+  simpleb wit_division = true /\ poly_contains_orig wit_division (0,1) = Ret true /\
+  ~ in_region wit_division (0,1) /\ ~ in_region_nz wit_division (0,1) /\ poly_contains wit_division (0,1) = Ret false.
+Proof.
+  split; [vm_compute; reflexivity|]. split; [vm_compute; reflexivity|]. split; [|split].
+  - intros H. apply in_regionb_spec in H. vm_compute in H. discriminate.
+  - intros H. apply in_region_nzb_spec in H. vm_compute in H. discriminate.
+  - vm_compute. reflexivity.
+Qed.
+
+(** the code as found overflows isize for coordinates of the GDSII range (32 bits), the repaired code does not *)
+Definition wit_i32 : list pt := [(-2147483648, -2147483648); (2147483647, -2147483648); (2147483647, 2147483647)].
+Lemma orig_overflow_i32 :
+  poly_contains_orig wit_i32 (0, -2147483647) = Ovf /\ poly_contains wit_i32 (0, -2147483647) = Ret true /\
+  in_region wit_i32 (0, -2147483647).
+Proof.
+  split; [vm_compute; reflexivity|]. split; [vm_compute; reflexivity|].
+  apply in_regionb_spec. vm_compute. reflexivity.
+Qed.
+
+(** ** a vertex list that runs twice round a square: winding number 2; the repaired code (non-zero
+    winding) answers true, the even-odd rule says outside.  Hence the even-odd form of the polygon
+    theorem cannot hold for ALL vertex lists; it needs the winding bound that simple polygons have. *)
+Definition double_square : list pt := [(0,0);(2,0);(2,2);(0,2);(0,0);(2,0);(2,2);(0,2)].
+Lemma double_square_facts :
+  poly_contains double_square (1,1) = Ret true /\ winding double_square (1,1) = 2 /\
+  ~ in_region double_square (1,1) /\ simpleb double_square = false.
+Proof.
+  split; [vm_compute; reflexivity|]. split; [vm_compute; reflexivity|]. split; [|vm_compute; reflexivity].
+  intros H. apply in_regionb_spec in H. vm_compute in H. discriminate.
+Qed.
